@@ -388,9 +388,11 @@ def run(ctx):
             continue
         for bb, t in b.calls():
             nm = t.get('callee') or t.get('decl') or ''
-            if not re.search(r'(<i64 as num_traits::Signed>::abs|<impl i64>::abs|<i64 as num_traits::Signed>::abs_sub|<impl i64>::pow)$', nm):
+            if re.search(r'<impl i64>::(checked_abs|unsigned_abs|wrapping_abs|overflowing_abs|saturating_abs|abs_diff)$', nm):
+                # total forms: cannot overflow
+                r10.inst({'fn': b.nid, 'site': mirq.site(b, bb), 'form': nm.split('::')[-1] + ' (total)'}, kind=(b.nid, bb))
                 continue
-            if nm.endswith('pow'):
+            if not re.search(r'(<i64 as num_traits::Signed>::abs|<impl i64>::abs|<i64 as num_traits::Signed>::abs_sub)$', nm):
                 continue
             # the operand: a (reference to a) place; MIN excluded = a dominating switch on that place with an explicit MIN target
             ap = op_place(t['args'][0]) if t['args'] else None
